@@ -103,7 +103,7 @@ impl HostFilter for RejectAll {
 
 /// One process-wide configuration: `Metrics::new()` allocates a 1.7 MiB histogram, far too much to
 /// repeat for every world an explicit-state search builds.
-fn node_config() -> &'static NodeConfig {
+pub(crate) fn node_config() -> &'static NodeConfig {
     static CONFIG: std::sync::OnceLock<NodeConfig> = std::sync::OnceLock::new();
     CONFIG.get_or_init(build_node_config)
 }
